@@ -1409,3 +1409,68 @@ def c07(case):
                 "qqs": list(t0.qqs)[:8]}
     except Exception as e:  # noqa
         return _exc(e)
+
+
+# ---------------------------------------------------------------------------
+# C08: Twp/Rge spellings and default directions
+
+_TR_CANON = re.compile(r"T(\d{1,3})([NS])-R(\d{1,3})([EW])")
+_TR_SHORT = re.compile(r"(\d{1,3})([ns])(\d{1,3})([ew])")
+
+
+def _tr_tuple(m):
+    return [int(m.group(1)), m.group(2).upper(), int(m.group(3)), m.group(4).upper()]
+
+
+def c08(case):
+    import pytrs
+    from pytrs import MasterConfig
+    a = case["args"]
+    text, canon_text = a["text"], a["canon_text"]
+    src, dns, dew = a["src"], a["dflt"]["ns"].lower(), a["dflt"]["ew"].lower()
+    old = (MasterConfig.default_ns, MasterConfig.default_ew)
+    try:
+        cfg_parts = ["ocr_scrub"] if a["ocr"] else []
+        kw = {}
+        if src == "config":
+            cfg_parts += [dns, dew]
+        elif src == "masterconfig":
+            MasterConfig.default_ns, MasterConfig.default_ew = dns, dew
+        cfg = ",".join(cfg_parts) or None
+        if src == "keyword":
+            d = pytrs.PLSSDesc(text, config=cfg, wait_to_parse=True)
+            d.parse(default_ns=dns, default_ew=dew)
+            found = pytrs.find_twprge(text, default_ns=dns, default_ew=dew, preprocess=True, ocr_scrub=a["ocr"])
+        else:
+            d = pytrs.PLSSDesc(text, config=cfg)
+            if src == "config":
+                found = pytrs.find_twprge(text, default_ns=dns, default_ew=dew, preprocess=True, ocr_scrub=a["ocr"])
+            else:
+                found = pytrs.find_twprge(text, preprocess=True, ocr_scrub=a["ocr"])
+        pp = [_tr_tuple(m) for m in _TR_CANON.finditer(d.pp_desc)]
+        # every Twp/Rge of the preprocessed text is in the canonical spelling: none is left in another spelling
+        leftovers = pytrs.find_twprge(_TR_CANON.sub(" ", d.pp_desc))
+        fnd = []
+        for f in found:
+            m = _TR_CANON.fullmatch(f)
+            fnd.append(_tr_tuple(m) if m else [0, "?", 0, "?"])
+        tr_seq, last = [], None
+        for t in d.tracts:
+            m = _TR_SHORT.fullmatch(t.twprge)
+            cur = _tr_tuple(m) if m else [0, "?", 0, "?"]
+            if last is None or cur != last or t.orig_index in a["group_starts"]:
+                tr_seq.append(cur)
+            last = cur
+        warned = []
+        fixed = [f for f in d.w_flags if isinstance(f, str) and f.startswith("fixed_twprge<")]
+        for w in a["want_short"]:
+            warned.append(any(w in f for f in fixed) and all(any(w in f for f in t.w_flags if isinstance(f, str) and
+                                                                 f.startswith("fixed_twprge<")) for t in d.tracts))
+        dc = pytrs.PLSSDesc(canon_text)
+        same = [(t.trs, t.desc) for t in d.tracts] == [(t.trs, t.desc) for t in dc.tracts]
+        return {"exc": "none", "pp": pp, "found": fnd, "tracts": tr_seq, "canon_pp": not leftovers, "warned": warned,
+                "same_tracts": same, "pp_text": d.pp_desc[:120], "w_flags": [str(f) for f in d.w_flags][:5]}
+    except Exception as e:  # noqa
+        return _exc(e)
+    finally:
+        MasterConfig.default_ns, MasterConfig.default_ew = old
